@@ -3,8 +3,8 @@ import sys
 
 from props import _cluster
 
-THEOREMS = ['XmlDiffModel.C13_never_named', 'XmlDiffModel.C13_attr_actions_avoid_ignored', 'XmlDiffModel.C13_patched_equals_right_up_to_ignored']
-PARTIAL = {'C13_equal_mod_S_empty': 'proved: no action names an ignored attribute, and the patched left document equals the right one up to the ignored attributes (for every good matching, any size). NOT proved: documents that differ only in ignored attributes give [] (needs the matcher to pair counterparts); decided per run on the equal / ignored streams.'}
+THEOREMS = ['XmlDiffModel.C13_ignored_only_differences_empty_script', 'XmlDiffModel.C13_never_named', 'XmlDiffModel.C13_attr_actions_avoid_ignored', 'XmlDiffModel.C13_patched_equals_right_up_to_ignored']
+PARTIAL = {'C13_oracle_assumption': "all three clauses are proved for the model pipeline, any document size: documents that differ only in ignored attributes get the empty script (C13_ignored_only_differences_empty_script, all three match modes, 0 < F <= 1.0), no action names an ignored attribute, and the patched left document equals the right one up to the ignored attributes. ASSUMED for the first clause and checked against the real node_ratio on every such pair of every run (unit U2eq): counterparts score exactly 1.0 once their children are matched, and for fast_match a node reaching F against anything reaches F against its counterpart (node_text filters ignored attributes, so both hold of the code). NOT proved: CLI parsing of --ignored-attrs beyond the split model (C15), namespaced documents."}
 LEAN_MODULES = ['XmlDiffModel.Props.C01', 'XmlDiffModel.Props.Replay', 'XmlDiffModel.Props.C13']
 SOURCES = ['diff.Differ.node_attribs', 'diff.Differ.update_node_attr', 'diff.Differ.node_ratio', 'diff.Differ.node_text']
 RULE = "Differ cluster, stream 'ignored': random ignored_attrs subsets of the attribute pool combined with the other options; oracles: no action names an ignored attribute, patch result equals R after erasing the ignored attributes, documents equal up to ignored attributes give []. Non-trivial = script has >= 2 action types or a move."
@@ -12,4 +12,4 @@ ASSUMPTIONS = [
     "documents of the namespace-free C01 domain (elements, attributes, text, tails, comments); namespaced documents are exercised by the oracle streams only",
     "similarity values (difflib.SequenceMatcher, sqrt) are an oracle recorded from the real node_ratio for every comparable pair",
 ]
-_cluster.make(sys.modules[__name__], 'C13', {'U4','U5','E2E'}, [('ignored',3000),('equal',1000)], [('ignored',60000),('equal',20000)])
+_cluster.make(sys.modules[__name__], 'C13', {'U4','U5','E2E','U2eq'}, [('ignored',3000),('equal',1000)], [('ignored',60000),('equal',20000)])
